@@ -145,6 +145,9 @@ StatusBad ==
   ELSE IF MaxFS > 0 /\ Cur.mut > 0 /\ Cur.proc = "WRITE" /\ Kind(PreT, P) = "F" /\
           ((Cur.offc = "small" /\ Cur.off + Len(Cur.data) > MaxFS) \/ Cur.offc # "small")
   THEN {[prop |-> "C25", why |-> "a WRITE beyond MaxFileSize reached the backend with a modifying operation"]}
+  ELSE IF Cur.proc = "LOOKUP" /\ Cur.hknown /\ Cur.mangle = "ok" /\ ~HandleStale /\ Kind(PreT, P) = "D" /\ ValidName(Cur.ncls)
+          /\ Kind(PreT, C) = "N" /\ Cur.st # "NOENT"
+  THEN {[prop |-> "C02", why |-> "LOOKUP of a name that does not exist must answer NFS3ERR_NOENT whatever is cached (" \o Cur.st \o ")"]}
   ELSE {}
 
 OutcomeBad ==
@@ -242,7 +245,18 @@ OwnBad ==
 
 FailedChanged == IF ~Cur.ok /\ PostT # PreT THEN {[prop |-> "C02", why |-> "a failed request changed the tree (" \o Cur.proc \o ")"]} ELSE {}
 
+\* A namespace request during which one backend operation failed (injected fault, family 7 of the
+\* directed probes): it may report the failure or not, but a reported failure leaves the tree
+\* unchanged and a reported success is one of the model's outcomes.
+FaultBad ==
+  IF ~Cur.ok /\ Norm(PostT) # Norm(PreT)
+  THEN {[prop |-> "C02", why |-> "a request that failed on a backend fault left a partial effect in the tree (" \o Cur.proc \o ")"]}
+  ELSE IF Cur.ok /\ Out \notin NormOuts(Allowed)
+  THEN {[prop |-> "C02", why |-> Cur.proc \o " reported success after a backend fault but the tree is not the model's"]}
+  ELSE {}
+
 AllBad == IF Cur.faulty THEN {}      \* an injected backend fault hit this request (crash profile)
+          ELSE IF Cur.nsfault THEN FaultBad
           ELSE IF Cur.rocheck THEN ROBad \cup FailedChanged
           ELSE OutcomeBad \cup ResultBad \cup StatusBad \cup AttrBad \cup ROBad \cup OwnBad
 Explained(b) == DevFor(b) # ""
